@@ -264,12 +264,13 @@ class Gen:
             "local.e1 = ( 1 2 3 ) * \"x\"",
             "local.e1 = $nothing.f",
             "$nothing.f = 1",
-            "local.e1 = NULL.f",
-            "NIL.f = 2",
+            "local.e7 = NULL\nlocal.e1 = local.e7.f",
+            "local.e7 = NIL\nlocal.e7.f = 2",
             "$nothing println 1",
             "NIL print 1 2",
             "NULL trigger \"x\"",
-            "local.e1 = $nothing classname" if False else "local.e1 = NULL.classname",
+            "local.e7 = NULL\nlocal.e1 = local.e7.classname",
+            "owner.f = 1", "local.e1 = owner.f", "owner.f = 2\nlocal.e1 = owner.f", "local.e1 = owner",
             "local.e2 = 5\nlocal.e2.f = 1",
             "local.e2 = 5\nlocal.e1 = local.e2.f",
             "local.e1 = self.sr",
@@ -308,6 +309,10 @@ class Gen:
         k = r.random()
         if self.err and r.random() < self.err:
             return self.errstmt()
+        if k < 0.04:
+            self.feat.add("store-then-load")
+            v = self.var()
+            return ["%s = %s" % (v, self.expr(1)), "%s = %s" % (self.var(), v) if r.random() < 0.5 else "println %s %s" % (v, v)]
         if k < 0.40:
             self.feat.add("assign")
             return ["%s = %s" % (self.lhs(), self.expr())]
@@ -324,13 +329,14 @@ class Gen:
             return ["%s %s" % (c, " ".join(self.expr(1) for _ in range(n)))]
         if k < 0.86:
             self.feat.add("method-cmd")
-            n = r.choice([0, 1, 2, 6])
+            n = r.choice([0, 1, 2, 3, 4, 5, 6])
             return ["%s %s %s" % (r.choice(["local", "level", "game", "parm", "$nothing"] if self.err else ["local", "level", "game", "parm"]),
                                   r.choice(["println", "print"]), " ".join(self.expr(2) for _ in range(n)))]
         if k < 0.93 and self.threads:
             name, n = r.choice(self.threads)
             self.feat.add("thread-call")
-            form = r.choice(["thread %s %s", "waitthread %s %s", "local thread %s %s", "local.t = thread %s %s", "local.t = waitthread %s %s"])
+            form = r.choice(["thread %s %s", "waitthread %s %s", "local thread %s %s", "local.t = thread %s %s", "local.t = waitthread %s %s",
+                             "local.t = local thread %s %s", "local.t = level waitthread %s %s"])
             return [form % (name, " ".join(self.expr(2) for _ in range(n)))]
         if k < 0.96:
             self.feat.add("wait")
@@ -446,7 +452,7 @@ class Gen:
     def program(self):
         r = self.r
         nthreads = r.choice([0, 1, 1, 2, 3])
-        self.threads = [("t%d" % i, r.choice([0, 1, 2, 3])) for i in range(nthreads)]
+        self.threads = [("t%d" % i, r.choice([0, 1, 2, 3, 3, 4, 5, 6, 7])) for i in range(nthreads)]
         n = max(1, int(r.choice([2, 3, 4, 6, 8]) * self.size))
         allthreads = list(self.threads)
         lines = self.thread_body("main", 0, n)
